@@ -109,6 +109,11 @@ def make_jobs(tier):
                 plan.append(("A", _cfg(ts, main, None, 3), ALPHA_FULL, False))
         for ts in wide3[1:3]:
             plan.append(("A", _cfg(ts, True, "refused", 3), ALPHA_FULL, False))
+        # a transport with explicit retry options next to one that leaves them at their defaults
+        # (unlimited retries, cut by the horizon): options never carry over from one transport to another
+        for ts in ([T(W, 0), {"type": R}], [{"type": W}, T(R, 0)], [T(R, 1, (0.5, 1.0, 0.1, 2.0)), {"type": W}]):
+            for main in (False, True):
+                plan.append(("A", _cfg(ts, main, None, 3), ALPHA_FULL, False))
         # the SAME component object started again after an earlier run (one attempt: joined, then main
         # raised / main returned / the session left): the new run is judged like a first one
         for pre in ("main_raises", "main_returns", "leave", "stop"):
@@ -201,7 +206,7 @@ def make_jobs(tier):
 
 
 def json_key(ts):
-    return "+".join("%s%d" % (t["type"][:1], t["max_retries"]) for t in ts)
+    return "+".join("%s%s" % (t["type"][:1], t.get("max_retries", "d")) for t in ts)
 
 
 def main(ctx):
@@ -235,7 +240,7 @@ def main(ctx):
 # ---------------------------------------------------------------------------
 def cfg_id(cfg):
     return "%s|%s|fatal=%s|z=%g" % (
-        "+".join("%s%d" % ("ws" if t["type"] == "websocket" else "rs", t["max_retries"])
+        "+".join("%s%s" % ("ws" if t["type"] == "websocket" else "rs", t.get("max_retries", "-default"))
                  for t in cfg["transports"]),
         "main" if cfg["main"] else "nomain", cfg["is_fatal"], cfg["z"]) + (
         "|cf=" + cfg["cf"] if cfg.get("cf") else "") + (
@@ -430,7 +435,7 @@ def judge(cfg, obs, fw, stats=None):
                     bump("first_attempt_undelayed")
             else:
                 bump("retry_waits_checked")
-                if wait == tc["max_retry_delay"]:
+                if wait == tc.get("max_retry_delay", 300):
                     bump("wait_at_cap")
                 k = fails.get(idx, 0)
                 if k >= 1 and any(c is not None and abs(c - wait) < 1e-9
@@ -478,7 +483,7 @@ def job(a):
     fw = worker.ENV.get("fw")
     cfg, alphabet, stop = a["cfg"], a["alphabet"], a["stop"]
     stats = {"fw_" + fw: 0, "states": 0, "nontrivial_histories": 0}
-    if any(t["max_retries"] == -1 for t in cfg["transports"]):
+    if any(t.get("max_retries", -1) == -1 for t in cfg["transports"]):
         stats["unlimited_retries_configs"] = 1
     viol = []
     persig = {}
